@@ -109,7 +109,11 @@ func PageSources() string {
 }
 
 func PageSource(source *gedcom.SourceNode) string {
-	return fmt.Sprintf("%s.html", source.Pointer())
+	// The pointer comes from the file. It must not be able to name a file
+	// outside of the output directory.
+	key := unsafeFileNameRegexp.ReplaceAllString(source.Pointer(), "-")
+
+	return fmt.Sprintf("%s.html", key)
 }
 
 func PageStatistics() string {
